@@ -355,9 +355,9 @@ func modelOf0(p *driver.Plan) Model {
 			m.Out = append(m.Out, fmapImg(p.Fn, x)...)
 		}
 	case "Filter":
-		for _, x := range in {
+		for i, x := range in {
 			m.Calls = append(m.Calls, x)
-			if pred(p.Fn, p.FnArg, x) {
+			if pred(p.Fn, p.FnArg, x) && !(p.X("pred_fail") == 1 && fails[i]) {
 				m.Out = append(m.Out, x)
 			}
 		}
@@ -378,9 +378,10 @@ func modelOf0(p *driver.Plan) Model {
 			m.Out = append(m.Out, x)
 		}
 	case "Partition":
-		for _, x := range in {
+		for i, x := range in {
 			m.Calls = append(m.Calls, x)
-			if pred(p.Fn, p.FnArg, x) {
+			// a predicate that fails sends its element to the right, whatever it answered
+			if pred(p.Fn, p.FnArg, x) && !(p.X("pred_fail") == 1 && fails[i]) {
 				m.Out = append(m.Out, x)
 			} else {
 				m.Out2 = append(m.Out2, x)
@@ -510,7 +511,7 @@ func (s *Sys) elemFn() func(int) (int, error) {
 		defer s.E.Leave(s.Calls, idx)
 		if s.P.Mode != "pure" && s.fails(s.pos(idx, x)) {
 			s.E.Fault("fn_error")
-			return 0, failure(s.P, x)
+			return s.junk(x), failure(s.P, x)
 		}
 		return mapImg(s.P.Fn, x), nil
 	}
@@ -520,8 +521,22 @@ func (s *Sys) predFn() func(int) (bool, error) {
 	return func(x int) (bool, error) {
 		s := s.cur() // the stage in use now (a morphism value may be shared by two uses)
 		defer s.E.Leave(s.Calls, s.E.Enter(s.Calls, x))
+		if s.P.X("pred_fail") == 1 && s.fails(s.indexOf(x)) {
+			// a predicate that answers and fails at the same time
+			s.E.Fault("fn_error")
+			return pred(s.P.Fn, s.P.FnArg, x), failure(s.P, x)
+		}
 		return pred(s.P.Fn, s.P.FnArg, x), nil
 	}
+}
+
+// junk is what a failing user function returns next to its error: the zero
+// value, or (err_val) some other value that must never be delivered.
+func (s *Sys) junk(x int) int {
+	if s.P.X("err_val") == 1 {
+		return 777000 + x
+	}
+	return 0
 }
 
 func (s *Sys) visitFn() func(int) (int, error) {
@@ -569,7 +584,7 @@ func (s *Sys) genFn(unfold bool) func(int) (int, error) {
 		defer s.E.Leave(s.Calls, idx)
 		if s.P.Mode != "pure" && s.fails(idx) {
 			s.E.Fault("fn_error")
-			return 0, failure(s.P, idx)
+			return s.junk(idx), failure(s.P, idx)
 		}
 		if unfold {
 			return unfoldF(s.P.Fn, x), nil
